@@ -38,12 +38,12 @@ int KillSwapUsage<Base>::init(
       : Fs::getMeminfo();
 
   // TODO(dschatzberg): Report Error
-  auto swapTotal = 0;
+  int64_t swapTotal = 0;
   if (meminfo && meminfo->count("SwapTotal")) {
     swapTotal = (*meminfo)["SwapTotal"];
   }
 
-  auto memTotal = 0;
+  int64_t memTotal = 0;
   if (meminfo && meminfo->count("MemTotal")) {
     memTotal = (*meminfo)["MemTotal"];
   }
